@@ -14,11 +14,11 @@ use std::collections::HashMap;
 use std::fmt::Write as _;
 use syn::*;
 
-fn last_ident(p: &Path) -> String {
+pub(crate) fn last_ident(p: &Path) -> String {
     p.segments.last().map(|s| s.ident.to_string()).unwrap_or_default()
 }
 
-fn type_last_seg(t: &Type) -> Option<&PathSegment> {
+pub(crate) fn type_last_seg(t: &Type) -> Option<&PathSegment> {
     match t {
         Type::Path(tp) => tp.path.segments.last(),
         Type::Reference(r) => type_last_seg(&r.elem),
@@ -27,12 +27,12 @@ fn type_last_seg(t: &Type) -> Option<&PathSegment> {
     }
 }
 
-fn type_name(t: &Type) -> String {
+pub(crate) fn type_name(t: &Type) -> String {
     type_last_seg(t).map(|s| s.ident.to_string()).unwrap_or_default()
 }
 
 /// all items of the files, inline modules flattened (test modules skipped)
-fn flat_items(files: &[File]) -> Vec<&Item> {
+pub(crate) fn flat_items(files: &[File]) -> Vec<&Item> {
     fn walk<'a>(items: &'a [Item], out: &mut Vec<&'a Item>) {
         for it in items {
             if let Item::Mod(m) = it {
@@ -54,14 +54,14 @@ fn flat_items(files: &[File]) -> Vec<&Item> {
     v
 }
 
-fn generic_args(seg: &PathSegment) -> Vec<&GenericArgument> {
+pub(crate) fn generic_args(seg: &PathSegment) -> Vec<&GenericArgument> {
     match &seg.arguments {
         PathArguments::AngleBracketed(ab) => ab.args.iter().collect(),
         _ => vec![],
     }
 }
 
-fn single_tail_expr(b: &Block) -> Option<&Expr> {
+pub(crate) fn single_tail_expr(b: &Block) -> Option<&Expr> {
     match b.stmts.as_slice() {
         [Stmt::Expr(e, None)] => Some(e),
         [Stmt::Expr(Expr::Return(r), Some(_))] => r.expr.as_deref(),
@@ -70,7 +70,7 @@ fn single_tail_expr(b: &Block) -> Option<&Expr> {
 }
 
 /// `a::b::f(args)` → (["a","b","f"], args)
-fn call_parts(e: &Expr) -> Option<(Vec<String>, Vec<&Expr>)> {
+pub(crate) fn call_parts(e: &Expr) -> Option<(Vec<String>, Vec<&Expr>)> {
     let e = match e {
         Expr::Paren(p) => &*p.expr,
         e => e,
@@ -83,7 +83,7 @@ fn call_parts(e: &Expr) -> Option<(Vec<String>, Vec<&Expr>)> {
     None
 }
 
-fn single_ident(e: &Expr) -> Option<String> {
+pub(crate) fn single_ident(e: &Expr) -> Option<String> {
     match e {
         Expr::Path(p) if p.path.segments.len() == 1 => Some(p.path.segments[0].ident.to_string()),
         Expr::Reference(r) => single_ident(&r.expr),
@@ -92,11 +92,11 @@ fn single_ident(e: &Expr) -> Option<String> {
     }
 }
 
-fn new_tr<'a>(reg: &'a Registry, self_ty: Option<String>, prefix: &str) -> FnTr<'a> {
+pub(crate) fn new_tr<'a>(reg: &'a Registry, self_ty: Option<String>, prefix: &str) -> FnTr<'a> {
     FnTr { reg, self_ty, ret: Ty::Unit, counter: 0, fn_prefix: prefix.to_string(), local_fns: HashMap::new(), extra_defs: vec![], muts: vec![], tparams: HashMap::new() }
 }
 
-fn find_free_fn<'a>(files: &'a [File], name: &str) -> Option<&'a ItemFn> {
+pub(crate) fn find_free_fn<'a>(files: &'a [File], name: &str) -> Option<&'a ItemFn> {
     flat_items(files).into_iter().find_map(|it| match it {
         Item::Fn(f) if f.sig.ident == name => Some(f),
         _ => None,
@@ -106,14 +106,16 @@ fn find_free_fn<'a>(files: &'a [File], name: &str) -> Option<&'a ItemFn> {
 // ------------------------------------------------------------------------------------------------
 // region wiring
 
-struct Wiring {
-    variant: String,
-    fixed: bool,
-    plan_ty: String,
-    region_ty: String,
+pub(crate) struct Wiring {
+    pub(crate) variant: String,
+    /// builder H: the `State` variant the arm constructs (`Region::X => State::Y(..)`)
+    pub(crate) state_variant: String,
+    pub(crate) fixed: bool,
+    pub(crate) plan_ty: String,
+    pub(crate) region_ty: String,
     /// const-generic arguments of the region type in the plan type (`AS923Region<921_400_000, 1800000>`)
-    args: Vec<Expr>,
-    freq_fn: String,
+    pub(crate) args: Vec<Expr>,
+    pub(crate) freq_fn: String,
 }
 
 fn region_of_plan_type(t: &Type, wrapper: &str, what: &str) -> Res<(String, Vec<Expr>)> {
@@ -139,7 +141,7 @@ fn region_of_plan_type(t: &Type, wrapper: &str, what: &str) -> Res<(String, Vec<
     Ok((rseg.ident.to_string(), args))
 }
 
-fn region_wiring(files: &[File]) -> Res<Vec<Wiring>> {
+pub(crate) fn region_wiring(files: &[File]) -> Res<Vec<Wiring>> {
     let items = flat_items(files);
     let mut state_new: Option<&ImplItemFn> = None;
     for it in &items {
@@ -242,7 +244,7 @@ fn region_wiring(files: &[File]) -> Res<Vec<Wiring>> {
             }
         }
         let freq_fn = freq_fn.ok_or(format!("{}: constructor {}::{} not found", what, plan_ty, ctor))?;
-        out.push(Wiring { variant, fixed, plan_ty, region_ty, args: rargs, freq_fn });
+        out.push(Wiring { variant, state_variant: segs[1].clone(), fixed, plan_ty, region_ty, args: rargs, freq_fn });
     }
     if out.is_empty() {
         return Err("region wiring: State::new has no arms".into());
@@ -446,7 +448,7 @@ fn translate_region_type(files: &[File], reg: &mut Registry, out: &mut String, r
 /// this way and fails the unit.
 const HANDLER_METHODS: &[&str] = &["get_rx2_frequency", "rx1_dr_offset_validate", "has_fixed_channel_plan", "get_default_datarate"];
 
-fn handler_method<'a>(items: &[&'a Item], plan: &str, method: &str) -> Res<(&'a Signature, &'a Block, Option<String>)> {
+pub(crate) fn handler_method<'a>(items: &[&'a Item], plan: &str, method: &str) -> Res<(&'a Signature, &'a Block, Option<String>)> {
     // the plan's own impl first, then the trait's default body
     for it in items {
         let Item::Impl(im) = it else { continue };
